@@ -649,11 +649,6 @@ def gen_universe(rng, opts=None):
     return Gen(rng, opts).universe()
 
 
-def universe_from_tree(desc):
-    """Replay helper: only the tree and the recorded ground truth are needed."""
-    return desc
-
-
 if __name__ == "__main__":
     import sys
     sys.path.insert(0, os.path.dirname(os.path.abspath(__file__)))
